@@ -38,7 +38,17 @@ def handle(req):
     ans = {'texts': [], 'hashseed': os.environ.get('PYTHONHASHSEED')}
     first_set = []
     for prc in req.get('primes') or []:
-        dump(values.build(prc), dumper, opts)          # the dump history of this interpreter
+        # the dump history of this interpreter
+        if prc and prc[0] == 'fail':
+            try:
+                o = dict(opts)
+                if 'version' in o:
+                    o['version'] = tuple(o['version'])
+                yaml.dump_all([values.build(prc[1]), (i for i in ())], Dumper=getattr(yaml, dumper), **o)
+            except Exception:
+                pass
+            continue
+        dump(values.build(prc), dumper, opts)
     for n, perm in enumerate(req['perms']):
         x = values.build(req['recipe'], perm=perm)
         if n == 0:
@@ -120,6 +130,9 @@ def _multidoc(req, x, t, dumper, opts):
     try:
         shared = [0]
         w = {'p': shared, 'q': shared, 'r': [shared]}
+        if req.get('sibling') is not None:
+            # the document before x is an ==-equal variant of x (1 / True / 1.0, 0 / False / -0.0 ...)
+            w = values.build(req['sibling'], perm=req['perms'][0])
         x2 = values.build(req['recipe'], perm=req['perms'][0])
         o = dict(opts)
         if 'version' in o:
@@ -137,7 +150,36 @@ def _multidoc(req, x, t, dumper, opts):
                 if a != b:
                     return {'document': n, 'event': i, 'alone': a, 'in_stream': b}
             return {'document': n, 'events': [len(alone[0]), len(docs[n])]}
+    # ... and inside ONE document, at the level of the representation graph (the emitted text of a nested value
+    # legitimately depends on its indentation through line folding): the node the representer builds for x as the
+    # second item of [sibling, x] equals the node it builds for x alone.  Evaluated for values without shared or
+    # recursive parts (no node is re-used, so the graphs are comparable one to one).
+    if req.get('sibling') is not None and not _has_refs(req['recipe']) and not _has_refs(req['sibling']):
+        import io
+        try:
+            D = getattr(yaml, dumper)
+            w2 = values.build(req['sibling'], perm=req['perms'][0])
+            x3 = values.build(req['recipe'], perm=req['perms'][0])
+            x4 = values.build(req['recipe'], perm=req['perms'][0])
+            d1, d2 = D(io.StringIO(), **o), D(io.StringIO(), **o)
+            both = d1.represent_data([w2, x3])
+            alone_node = d2.represent_data(x4)
+            d1.dispose()
+            d2.dispose()
+        except yaml.YAMLError as exc:
+            return {'error': type(exc).__name__, 'where': 'sibling-in-one-document'}
+        a, b = observe.node(alone_node), observe.node(both.value[1])
+        if a != b:
+            return {'where': 'sibling-in-one-document (representation graph)', 'alone': observe.jdump(a)[:600], 'next_to_sibling': observe.jdump(b)[:600]}
     return None
+
+
+def _has_refs(rc):
+    if isinstance(rc, list):
+        if rc and rc[0] in ('ref', 'shared'):
+            return True
+        return any(_has_refs(e) for e in rc)
+    return False
 
 
 def _has_set(v, seen):
